@@ -53,7 +53,7 @@ func backSlice(v ssa.Value) *slice {
 						// stores in the function owning the cell (flow-insensitive)
 						if a, ok := root.(*ssa.Alloc); ok && a.Parent() != fn {
 							for _, f := range withClosures(a.Parent()) {
-								allInstrs(f, func(in ssa.Instruction) {
+								allInstrsShallow(f, func(in ssa.Instruction) {
 									if st, ok := in.(*ssa.Store); ok && rootCell(st.Addr) == root {
 										rec(st.Val)
 									}
@@ -433,6 +433,17 @@ func affine(v ssa.Value) (affineExpr, bool) {
 		return affine(x.X)
 	case *ssa.ChangeType:
 		return affine(x.X)
+	case *ssa.Parameter:
+		// a parameter of a helper the reference tree does not have, called from one place: the argument
+		if h := x.Parent(); h != nil && h.Parent() == nil && gNewFuncs[h] && len(gCallSitesOf[h]) == 1 {
+			if cs := gCallSitesOf[h][0]; cs.Common().StaticCallee() == h {
+				for i, q := range h.Params {
+					if q == x && i < len(cs.Common().Args) {
+						return affine(cs.Common().Args[i])
+					}
+				}
+			}
+		}
 	case *ssa.Extract:
 		// result of a helper the reference tree does not have: the one expression all its successful
 		// returns agree on (in terms of the helper's own values)
